@@ -68,6 +68,8 @@ def variants(text, rng):
         # chosen against the tag text '{uri}COLLADA': ending in letters of COLLADA, containing it
         rnd = rng.choice(['a', '%', 'x y', 'http://example.org/schemas/COLLADA', 'urn:example:scene-3D', 'urn:x:%dA' % k,
                           'http://example.org/COLLADA/%d/LOD' % k, 'ACDLO', 'COLLADA', 'urn:%d:COLLADACOLLADA' % k, 'xCOLLADA%dD' % k])
+    while ('"%s"' % rnd) in text:
+        rnd = rnd + 'x'          # fresh: not a namespace the document already uses for foreign content
     others = [u for u in (NS141, NS15) if u != ns] + [rnd]
     if ns == NS141:
         others = [NS15, rnd]
